@@ -90,13 +90,17 @@ namespace cs
             int                                 value;
             fm::vector<E, fm::joint_allocator>  vec;
             fm::string<fm::joint_allocator>     str;
-            JV(fm::joint tag, std::size_t n, std::size_t chars, int b)
+            JV(fm::joint tag, std::size_t n, std::size_t chars, int b, std::size_t grow = 0)
             : base(tag), value(b), vec(fm::joint_allocator(*this)), str(fm::joint_allocator(*this))
             {
                 vec.reserve(n);
                 for (std::size_t i = 0; i < n; ++i)
                     vec.emplace_back(b + int(i));
                 str.assign(chars, 'x');
+                // the vector outgrows its buffer while the string's storage lies behind it: the old buffer is
+                // released out of order (it is not the last piece of the joint memory)
+                for (std::size_t i = 0; i < grow; ++i)
+                    vec.emplace_back(b + int(n + i));
             }
             JV(fm::joint tag, const JV& o)
             : base(tag), value(o.value), vec(fm::joint_allocator(*this)), str(fm::joint_allocator(*this))
@@ -121,6 +125,8 @@ namespace cs
             long                               elements = 0;
             bool                               empty    = false;
             int                                type     = 0;
+            int                                leaf     = 0; // which allocator object its block came from
+            std::shared_ptr<int>               leafp;        // the same, shared with the closures
             std::shared_ptr<void>              ptr;
         };
 
@@ -159,7 +165,8 @@ namespace cs
         }
 
         template <class JTy>
-        Handle wrap_jt(Ctx& c, std::shared_ptr<fm::joint_ptr<JTy, LeafA>> sp, std::size_t additional, int type);
+        Handle wrap_jt(Ctx& c, std::shared_ptr<fm::joint_ptr<JTy, LeafA>> sp, std::size_t additional, int type,
+                       int leaf);
 
         template <class JTy>
         long count_elems(const JTy& o)
@@ -168,10 +175,14 @@ namespace cs
         }
 
         template <class JTy>
-        Handle wrap_jt(Ctx& c, std::shared_ptr<fm::joint_ptr<JTy, LeafA>> sp, std::size_t additional, int type)
+        Handle wrap_jt(Ctx& c, std::shared_ptr<fm::joint_ptr<JTy, LeafA>> sp, std::size_t additional, int type,
+                       int leaf)
         {
             Handle h;
             h.type     = type;
+            h.leaf     = leaf;
+            h.leafp    = std::make_shared<int>(leaf);
+            auto leafp = h.leafp;
             h.ptr      = sp;
             h.elements = *sp ? count_elems(**sp) : 0;
             h.empty    = !*sp;
@@ -220,18 +231,19 @@ namespace cs
             };
             auto env = c.env;
             auto ctx = &c;
-            h.clone  = [sp, env, ctx, type](int) -> Handle
+            h.clone  = [sp, env, ctx, type](int to_leaf) -> Handle
             {
                 auto used = fm::detail::get_stack(**sp).capacity_used(fm::detail::get_memory(**sp));
-                auto np   = std::make_shared<fm::joint_ptr<JTy, LeafA>>(fm::clone_joint(env->la[0], **sp));
-                return wrap_jt<JTy>(*ctx, np, used, type);
+                auto np = std::make_shared<fm::joint_ptr<JTy, LeafA>>(fm::clone_joint(env->la[to_leaf], **sp));
+                return wrap_jt<JTy>(*ctx, np, used, type, to_leaf);
             };
-            h.move_joint = [sp, env, ctx, type]() -> Handle
+            h.move_joint = [sp, env, ctx, type, leafp]() -> Handle
             {
                 auto additional = fm::detail::get_stack(**sp).capacity(fm::detail::get_memory(**sp));
-                auto np = std::make_shared<fm::joint_ptr<JTy, LeafA>>(env->la[0], fm::joint_size(additional),
+                int  to_leaf    = 1 - *leafp; // into a block of the other allocator object
+                auto np = std::make_shared<fm::joint_ptr<JTy, LeafA>>(env->la[to_leaf], fm::joint_size(additional),
                                                                       std::move(**sp));
-                return wrap_jt<JTy>(*ctx, np, additional, type);
+                return wrap_jt<JTy>(*ctx, np, additional, type, to_leaf);
             };
             h.same_type_swap = [sp](Handle& other) -> bool
             {
@@ -248,7 +260,7 @@ namespace cs
         {
             auto& ct     = ctl();
             auto  alive0 = ct.alive.size();
-            auto  live0  = c.env->leaf[0].live.size();
+            auto  live0  = c.env->leaf[0].live.size() + c.env->leaf[1].live.size();
             c.env->log.begin_op(0);
             ct.arm(k);
             bool        injected = false, oom = false, ok = false;
@@ -291,7 +303,7 @@ namespace cs
                     violate("C20", "elements_leaked", "%s: %ld element(s) constructed before the failure were not "
                                                       "destroyed",
                             what, long(ct.alive.size()) - long(alive0));
-                if (c.env->leaf[0].live.size() != live0)
+                if (c.env->leaf[0].live.size() + c.env->leaf[1].live.size() != live0)
                     violate("C20,C11", "memory_leaked", "%s: the block obtained for the object was not given back",
                             what);
                 if (oom && fits && !(k >= 1 && k <= elements))
@@ -315,15 +327,15 @@ namespace cs
             if (long(ct.alive.size() - alive0) != elements)
                 violate("C20", "element_count", "%s: %ld element(s) alive after success, expected %ld", what,
                         long(ct.alive.size() - alive0), elements);
-            if (c.env->leaf[0].live.size() != live0 + 1)
+            if (c.env->leaf[0].live.size() + c.env->leaf[1].live.size() != live0 + 1)
                 violate("C11", "block_count", "%s: creation made %ld leaf allocation(s), expected exactly one", what,
-                        long(c.env->leaf[0].live.size()) - long(live0));
+                        long(c.env->leaf[0].live.size() + c.env->leaf[1].live.size()) - long(live0));
             return true;
         }
 
         template <class E1, class E2, class E3>
         void make_jt(Ctx& c, int type, int form, std::size_t n1, std::size_t n2, std::size_t n3, long extra,
-                     long k, int base)
+                     long k, int base, int leaf)
         {
             using T = JT<E1, E2, E3>;
             Args x{{n1, n2, n3}, form, base};
@@ -342,7 +354,11 @@ namespace cs
             if (x.n[2])
                 pos = align_up(pos, alignof(E3)) + x.n[2] * sizeof(E3);
             std::size_t need = pos - sizeof(T);
-            long        add  = long(need) + extra;
+            // extra >= 0: that much more than needed; extra < 0: a shortfall anywhere in 1..need (so that the
+            // first element that does not fit lies partly or completely behind the block, at any position)
+            long add = long(need) + extra;
+            if (extra < 0)
+                add = need ? long(need) - 1 - long(std::size_t(-extra - 1) % need) : 0;
             if (add < 0)
                 add = 0;
             bool fits     = std::size_t(add) >= need;
@@ -381,7 +397,7 @@ namespace cs
             bool ok = guarded(c, what, elements, k, fits,
                               [&]
                               {
-                                  auto& al = c.env->la[0];
+                                  auto& al = c.env->la[leaf];
                                   auto  js = fm::joint_size(std::size_t(add));
                                   switch (form)
                                   {
@@ -411,7 +427,7 @@ namespace cs
                 violate("C11", "block_request", "joint_ptr asked the allocator for %c(size %zu, align %zu), "
                                                 "expected node(size %zu, align %zu)",
                         last.op, last.size, last.align, sizeof(T) + std::size_t(add), alignof(T));
-            auto h = wrap_jt<T>(c, sp, std::size_t(add), type);
+            auto h = wrap_jt<T>(c, sp, std::size_t(add), type, leaf);
             h.layout_check(what);
             c.hs.push_back(h);
         }
@@ -420,11 +436,16 @@ namespace cs
         {
             auto& ct     = ctl();
             auto  alive0 = ct.alive.size();
-            auto  live0  = c.env->leaf[0].live.size();
+            auto  live0  = c.env->leaf[h.leaf].live.size();
+            auto  other0 = c.env->leaf[1 - h.leaf].live.size();
             c.env->log.begin_op(0);
             h.destroy();
             if (h.empty)
                 return;
+            if (c.env->leaf[1 - h.leaf].live.size() != other0 && c.env->log.problem.empty())
+                violate("C11", "wrong_allocator", "%s released a block of the allocator object the joint_ptr does "
+                                                  "not belong to",
+                        what);
             if (long(alive0 - ct.alive.size()) != h.elements)
                 violate("C11,C20", "element_count", "%s destroyed %ld element(s), the object held %ld", what,
                         long(alive0 - ct.alive.size()), h.elements);
@@ -432,9 +453,9 @@ namespace cs
                 violate("C11,C20", "element_lifecycle", "%s: %s", what, ct.problem.c_str());
             if (!c.env->log.problem.empty())
                 violate("C11,C09", "release_mismatch", "%s: %s", what, c.env->log.problem.c_str());
-            if (c.env->leaf[0].live.size() + 1 != live0)
-                violate("C11", "block_count", "%s released %ld block(s), expected exactly one", what,
-                        long(live0) - long(c.env->leaf[0].live.size()));
+            if (c.env->leaf[h.leaf].live.size() + 1 != live0)
+                violate("C11", "block_count", "%s released %ld block(s) of its allocator, expected exactly one", what,
+                        long(live0) - long(c.env->leaf[h.leaf].live.size()));
         }
     } // namespace
 
@@ -469,16 +490,17 @@ namespace cs
                     long        tot   = long(n1 + n2 + n3);
                     long        k     = tot ? o.arg(6) % (tot + 2) : 0;
                     int         base  = int(oi) * 10;
+                    int         leaf  = int(o.arg(7)) & 1;
                     switch (type)
                     {
                     case 0:
-                        make_jt<EA, EB, EC>(c, 0, form, n1, n2, n3, extra, k, base);
+                        make_jt<EA, EB, EC>(c, 0, form, n1, n2, n3, extra, k, base, leaf);
                         break;
                     case 1:
-                        make_jt<EC, EA, ED>(c, 1, form, n1, n2, n3, extra, k, base);
+                        make_jt<EC, EA, ED>(c, 1, form, n1, n2, n3, extra, k, base, leaf);
                         break;
                     default:
-                        make_jt<ED, EC, EB>(c, 2, form, n1, n2, n3, extra, k, base);
+                        make_jt<ED, EC, EB>(c, 2, form, n1, n2, n3, extra, k, base, leaf);
                     }
                 }
                 else if (o.kind == "clone" && !c.hs.empty())
@@ -489,7 +511,8 @@ namespace cs
                     auto   before = h.contents();
                     long   k      = h.elements ? o.arg(1) % (h.elements + 2) : 0;
                     Handle nh;
-                    bool   ok = guarded(c, "clone_joint", h.elements, k, true, [&] { nh = h.clone(0); });
+                    int    to = int(o.arg(2)) & 1;
+                    bool   ok = guarded(c, "clone_joint", h.elements, k, true, [&] { nh = h.clone(to); });
                     if (h.contents() != before)
                         violate("C11", "clone_changed_original", "clone_joint changed the original's contents");
                     if (!ok)
@@ -530,6 +553,8 @@ namespace cs
                     c.hs[i].same_type_swap(c.hs[j]);
                     std::swap(c.hs[i].elements, c.hs[j].elements);
                     std::swap(c.hs[i].empty, c.hs[j].empty);
+                    std::swap(c.hs[i].leaf, c.hs[j].leaf); // the allocator reference travels with the object
+                    std::swap(*c.hs[i].leafp, *c.hs[j].leafp);
                     std::swap(c.hs[i].layout_check, c.hs[j].layout_check);
                     if (c.hs[i].contents() != b || c.hs[j].contents() != a)
                         violate("C11", "swap_wrong", "swap of two joint_ptrs did not exchange the objects");
@@ -547,9 +572,66 @@ namespace cs
                 }
                 else if (o.kind == "jv")
                 {
-                    // containers with joint_allocator: jv n chars extra
+                    // containers with joint_allocator: jv n chars extra grow
                     using T         = JV<EA>;
                     std::size_t n   = std::size_t(o.arg(0)) % 12, chars = std::size_t(o.arg(1)) % 40;
+                    std::size_t grow = std::size_t(o.arg(3)) % 4;
+                    if (grow)
+                    {
+                        // generous room: what is judged here is the contents after an out-of-order release
+                        std::shared_ptr<fm::joint_ptr<T, LeafA>> gp;
+                        auto alive0 = ctl().alive.size();
+                        try
+                        {
+                            gp = std::make_shared<fm::joint_ptr<T, LeafA>>(fm::allocate_joint<T>(
+                                env.la[0], fm::joint_size(4096), n, chars, int(oi), grow));
+                        }
+                        catch (const fm::out_of_fixed_memory&)
+                        {
+                            violate("C11", "spurious_out_of_memory", "containers with joint_allocator in 4096 "
+                                                                     "bytes of joint memory");
+                        }
+                        ++c.cases;
+                        auto& g = **gp;
+                        if (g.vec.size() != n + grow || g.str.size() != chars)
+                            violate("C11", "contents_damaged", "sizes of the joint containers are wrong");
+                        for (std::size_t i = 0; i < g.vec.size(); ++i)
+                            if (g.vec[i].value != int(oi) + int(i))
+                                violate("C11", "contents_damaged", "element %zu of the vector in joint memory was "
+                                                                   "overwritten after the vector grew",
+                                        i);
+                        for (auto ch : g.str)
+                            if (ch != 'x')
+                                violate("C11", "contents_damaged", "the string in joint memory was overwritten when "
+                                                                   "the vector released its old buffer");
+                        // a further piece must not overlap what is alive
+                        fm::joint_allocator ja(g);
+                        void*               extra_piece = nullptr;
+                        try
+                        {
+                            extra_piece = ja.allocate_node(16, 4);
+                        }
+                        catch (const fm::out_of_fixed_memory&)
+                        {
+                        }
+                        if (extra_piece)
+                        {
+                            auto e  = static_cast<const char*>(extra_piece);
+                            auto v0 = reinterpret_cast<const char*>(g.vec.data());
+                            auto v1 = reinterpret_cast<const char*>(g.vec.data() + g.vec.capacity());
+                            bool hits_vec = g.vec.capacity() && e < v1 && v0 < e + 16;
+                            bool hits_str = chars > 15 && e < g.str.data() + g.str.capacity() + 1
+                                            && g.str.data() < e + 16;
+                            if (hits_vec || hits_str)
+                                violate("C11", "overlap", "joint_allocator handed out memory that overlaps a live "
+                                                          "container buffer after an out-of-order release");
+                        }
+                        gp->reset();
+                        if (ctl().alive.size() != alive0)
+                            violate("C11", "element_count", "joint object with grown vector: elements not destroyed");
+                        stats().hit("reach.joint_out_of_order_release");
+                        continue;
+                    }
                     std::size_t need = 0;
                     if (n)
                         need = align_up(sizeof(T), alignof(EA)) - sizeof(T) + n * sizeof(EA);
@@ -639,8 +721,9 @@ namespace cs
                 violate("C11,C09", "release_mismatch", "%s", env.log.problem.c_str());
             if (!ctl().alive.empty())
                 violate("C11,C20", "elements_leaked", "%zu element(s) alive at the end", ctl().alive.size());
-            if (!env.leaf[0].live.empty())
-                violate("C11", "memory_leaked", "%zu block(s) outstanding at the end", env.leaf[0].live.size());
+            if (!env.leaf[0].live.empty() || !env.leaf[1].live.empty())
+                violate("C11", "memory_leaked", "%zu block(s) outstanding at the end",
+                        env.leaf[0].live.size() + env.leaf[1].live.size());
             heap.end_op();
         }
         catch (Violation& v)
